@@ -2,7 +2,7 @@
 META = {
     "level": "exploration",
     "technique": "history + executable model: seeded operation histories on the real StorageServer/BucketWriter/BucketReader compared with a bucket model after every operation",
-    "text": "Drives the real allmydata.storage.server.StorageServer (direct API and FoolscapStorageServer wrappers with a broker-like canary) on a temp dir under the virtual clock with seeded histories of allocate/write/close/abort/timeout/disconnect/read/list over 1..3 storage indexes x 4 share numbers. Writes are fresh, out-of-order, duplicate-identical, overlapping-identical, conflicting, beyond the allocated size. After every operation the return value/exception and the observable state (get_buckets, get_shares, directory listings of shares/ and incoming/, allocated_size(), raw incoming file parsed independently) are compared with a zero-initialised-array + written-mask + visible-flag model.",
+    "text": "Drives the real allmydata.storage.server.StorageServer (direct API and FoolscapStorageServer wrappers with a broker-like canary) on a temp dir under the virtual clock with seeded histories of allocate/write/close/abort/timeout/disconnect/read/list over 1..3 storage indexes x 4 share numbers. A third leg goes through the real HTTPServer (vf.http.HttpStorage over the same server): up to two uploads per history of 64 KiB+1..200 000-byte shares whose PATCH bodies exceed 64 KiB (applied by the server in 64 KiB pieces), with earlier data inside or beyond the first 64 KiB of the body, identical or conflicting, then completed or aborted. Writes are fresh, out-of-order, duplicate-identical, overlapping-identical, conflicting, beyond the allocated size. After every operation the return value/exception and the observable state (get_buckets, get_shares, directory listings of shares/ and incoming/, allocated_size(), raw incoming file parsed independently) are compared with a zero-initialised-array + written-mask + visible-flag model.",
     "note": "Trusts the 60-line bucket model, the RangeMap shim (no zero-length writes / zero-size allocations are issued), the independent share-file parser in _storage.py, and assumes the upload timeout is 30 min of inactivity (judged only outside a +-1 s band).",
 }
 LEVEL = "exploration"
@@ -60,7 +60,9 @@ def run(ck):
     for r in ("write-conflict-rejected", "write-too-large-rejected", "write-identical-overlap-accepted",
               "write-out-of-order", "close-incomplete", "abort", "timeout-fired", "disconnect-killed-writer",
               "second-allocate-while-incoming", "second-allocate-after-complete", "read-past-end",
-              "realloc-after-abort", "foolscap-path", "conflict-and-too-large"):
+              "realloc-after-abort", "foolscap-path", "conflict-and-too-large", "http-path",
+              "http-big-conflict-first64k", "http-big-conflict-beyond64k", "http-big-identical-overlap-first64k",
+              "http-big-identical-overlap-beyond64k", "http-conflict-rejected", "http-upload-completed", "http-abort"):
         ck.require_reach(r)
     ck.exhaustive = False
 
@@ -427,8 +429,135 @@ def _one_case(ck, rng, case, FoolscapStorageServer, BucketWriter, FoolscapBucket
             elif got[i] != 0:
                 ck.observe("unwritten-byte-reads-nonzero")
 
+    # ---- HTTP front end, bodies > 64 KiB (the server checks and applies such a PATCH in 64 KiB pieces)
+    http = [None, 0]
+
+    def do_http_big():
+        if http[1] >= 2:
+            return do_write()
+        http[1] += 1
+        from vf.http import HttpStorage
+        from allmydata.storage.http_client import ClientException
+        if http[0] is None:
+            http[0] = HttpStorage(storage_server=ss, tmp=case.tmp)
+        h = http[0]
+        ck.hit("http-path")
+        si = S.rand_si(rng)
+        sh = rng.randrange(4)
+        size = rng.choice([65537, 70000, 131072, 131073, 150000, 200000])
+        upsec, rs, cs = S.rand_bytes(rng, 32), S.rand_bytes(rng, 32), S.rand_bytes(rng, 32)
+        o = min(rng.choice([0, 1, rng.randint(0, size - 65537)]), size - 65537)
+        L = rng.choice([65537, size - o, rng.randint(65537, size - o)])
+        where = rng.choice(["first64k", "beyond64k"])
+        lo, hi = (o, o + 65536) if where == "first64k" else (o + 65536, o + L)
+        pa = rng.randint(lo, hi - 1)
+        la = min(rng.choice([1, 10, 3000]), hi - pa)
+        variant = rng.choice(["identical", "conflict"])
+        history.append(("http-big", size, "body=[%d,%d)" % (o, o + L), "earlier=[%d,%d) %s" % (pa, pa + la, where), variant))
+        open_before = ss.allocated_size()
+        st, res = h.drive(h.imm.create(si, {sh}, size, upsec, rs, cs))
+        if st != "ok" or set(res.allocated) != {sh}:
+            viol("http-allocate-failed", "HTTP create of a fresh share: %s %r" % (st, res))
+            return
+        data, mask = bytearray(size), bytearray(size)
+        inc, fin = case.incoming_path(si, sh), case.final_path(si, sh)
+
+        def stored():
+            with open(inc if os.path.exists(inc) else fin, "rb") as f:
+                return f.read()
+
+        def patch(off, body):
+            """returns 'ok' | 'conflict' after judging it against the model"""
+            end = off + len(body)
+            conflict = any(bytes(body[max(a, off) - off:min(b, end) - off]) != bytes(data[max(a, off):min(b, end)])
+                           for a, b in _runs(mask, 1) if a < end and off < b)
+            pre = stored()
+            st, res = h.drive(h.imm.write_share_chunk(si, sh, upsec, off, bytes(body)))
+            post = stored()
+            ck.mon("write-outcome")
+            rejected = st == "err" and isinstance(res.value, ClientException) and res.value.code == 409
+            if st != "ok" and not rejected:
+                viol("http-write-failed", "PATCH [%d,%d): %s %r" % (off, end, st, getattr(res, "value", res)))
+                return "stop"
+            if conflict:
+                if not rejected:
+                    viol("http-conflict-accepted", "PATCH [%d,%d) (%d pieces of 64 KiB) differing from already written "
+                         "bytes was accepted" % (off, end, -(-len(body) // 65536)), size=size, written=_ranges(mask))
+                    return "stop"
+                ck.hit("http-conflict-rejected")
+                ck.mon("stored-bytes")
+                if post != pre:
+                    viol("http-rejected-write-changed-data", "PATCH [%d,%d) was rejected (409) but the share file changed, "
+                         "first difference at file offset %d" % (off, end, _first_diff(pre, post)),
+                         size=size, written=_ranges(mask))
+                    return "stop"
+                return "conflict"
+            if rejected:
+                viol("http-consistent-write-rejected", "PATCH [%d,%d) agreeing with all already written bytes got 409"
+                     % (off, end), size=size, written=_ranges(mask))
+                return "stop"
+            data[off:end] = body
+            mask[off:end] = b"\x01" * (end - off)
+            if bool(res.finished) != all(mask):
+                viol("http-finished-flag", "PATCH reported finished=%r, upload complete=%r" % (res.finished, all(mask)))
+                return "stop"
+            ck.mon("stored-bytes")
+            raw = S.ImmutableRaw(post)
+            if any(raw.data[a:b] != bytes(data[a:b]) for a, b in _runs(mask, 1)):
+                viol("http-stored-bytes-differ", "share bytes on disk differ from what was written after PATCH [%d,%d)" % (off, end))
+                return "stop"
+            return "ok"
+
+        if patch(pa, S.rand_bytes(rng, la)) != "ok":
+            return
+        body = bytearray(rng.randbytes(L))
+        for a, b in _runs(mask, 1):
+            a, b = max(a, o), min(b, o + L)
+            if a < b:
+                body[a - o:b - o] = data[a:b]
+        if variant == "conflict":
+            j = rng.randint(pa, pa + la - 1)
+            body[j - o] ^= 0x5a
+            ck.hit("http-big-conflict-" + where)
+        else:
+            ck.hit("http-big-identical-overlap-" + where)
+        if patch(o, body) == "stop":
+            return
+        if rng.random() < .25 and not all(mask):
+            st, res = h.drive(h.imm.abort_upload(si, sh, upsec))
+            ck.hit("http-abort")
+            ck.mon("abort-leaves-nothing")
+            if os.path.exists(inc) or os.path.exists(fin):
+                viol("abort-leaves-share", "HTTP abort left a share file behind")
+                return
+        else:
+            while not all(mask):
+                a, b = _runs(mask, 0)[0]
+                # overlap the neighbours identically by a few bytes; may again be > 64 KiB
+                a2, b2 = max(0, a - rng.choice([0, 3])), min(size, b + rng.choice([0, 3]))
+                fill = bytearray(rng.randbytes(b2 - a2))
+                fill[0:a - a2] = data[a2:a]
+                fill[b - a2:b2 - a2] = data[b:b2]
+                if patch(a2, fill) != "ok":
+                    return
+            ck.hit("http-upload-completed")
+            ck.mon("visibility")
+            if sh not in ss.get_buckets(si) or os.path.exists(inc):
+                viol("closed-share-not-visible", "HTTP upload complete but the share is not in get_buckets / still incoming")
+                return
+            ck.mon("read-bytes")
+            got = ss.get_buckets(si)[sh].read(0, size + 10)
+            if got != bytes(data):
+                viol("read-wrong-bytes", "share uploaded over HTTP reads back differently (len %d vs %d, first difference %d)"
+                     % (len(got), size, _first_diff(got, bytes(data))))
+                return
+        ck.mon("ledger")
+        if ss.allocated_size() != open_before:
+            viol("reservation-ledger", "allocated_size()=%d after the HTTP upload ended, %d before it started"
+                 % (ss.allocated_size(), open_before))
+
     ops = [(do_allocate, 14), (do_write, 42), (do_close, 9), (do_abort, 6), (do_advance, 5),
-           (do_disconnect, 3), (do_read, 21)]
+           (do_disconnect, 3), (do_read, 21), (do_http_big, 4)]
     table = [f for f, w in ops for _ in range(w)]
     do_allocate()
     invariants("allocate")
@@ -447,9 +576,26 @@ def _one_case(ck, rng, case, FoolscapStorageServer, BucketWriter, FoolscapBucket
         if bad[0]:
             break
         invariants(history[-1][0] if history else "?")
+    if http[0] is not None:
+        http[0].close()
     nontrivial = "overlap" in flags and "close" in flags and bool(flags & {"abort", "timeout", "disconnect"})
     ck.case("history", key=tuple(history), nontrivial=nontrivial,
             sample={"storage_indexes": nsi, "ops": len(history), "first_ops": history[:8]})
+
+
+def _runs(mask, val):
+    """[(start, stop)] of maximal runs of byte value ``val`` (0/1) in a bytearray mask (C-speed scanning)."""
+    out, i, n = [], 0, len(mask)
+    me, other = bytes([val]), bytes([1 - val])
+    while True:
+        a = mask.find(me, i)
+        if a < 0:
+            return out
+        b = mask.find(other, a)
+        if b < 0:
+            b = n
+        out.append((a, b))
+        i = b
 
 
 def _ranges(mask):
